@@ -126,6 +126,17 @@ def container_owners(prog, rep):
                     else:
                         rep.fail("container-owners", m.path.name, f.qualname, h, f"`{attr}` is stored or mutated outside its owners (constructor, guarded add, list setter, decoder): the length guard can be bypassed")
     rep.floor("container-owners", n, 10)
+    from .. import facts
+    for modname, cname, mname, attr in BLOCKS:
+        c = prog.need_cls(cname, modname)
+        v = facts.init_summary(prog, c).attrs.get(attr)
+        if isinstance(v, ast.List) and not v.elts:
+            rep.ok("container-owners", f"{cname}.__init__ gives every block its own empty `{attr}`")
+        else:
+            ca = prog.class_attr(c, attr)
+            rep.fail("container-owners", c.module.path.name, f"{cname}.__init__", c.get("__init__").node,
+                     f"`{attr}` is not created per instance in __init__ (" + ("class-level list shared by all blocks" if ca else f"value `{norm(v)}`") + "): tracks accepted by one block appear in blocks with another frame count",
+                     construct=f"{cname}.__init__ :: {attr}")
 
 
 def find_foreign_mutations(fn, attr):
